@@ -74,6 +74,10 @@ SHORT = {
  'C13j': '`FromSet::new`: all keys of a trigger are sorted, the final key included (triggers with the same keys and a different final key share a table entry; a repeat-only entry overwrites the wrong mapping)',
  'C13k': 'parser (`parse_single_or_alias_to_array`): a one-element `to` array is handed to the single-key path, which refuses `["@alias"]` while the bare spelling `"@alias"` still works',
  'C14g': 'parser: a `field()` accessor treats JSON `null` as "not given" while the guards `has_at_least_keys` / `has_exactly_keys` still count the key as present (`unwrap` of `None` on `{"from":"A","to":null}`)',
+ 'C09e': '`Mapper::step`: the "is it considered held" guard on the release branch removed (a release the mapper ignores now answers Disabled and cancels a running custom repeat)',
+ 'C12d': 'per-device loop: the `On` / `Off` arms merged; the timer is cancelled only when the release batch is non-empty (a repeat whose trigger is held alone survives an On-Off bounce of the switch)',
+ 'C17e': '`build_exclude_text`: patterns with a space are written double-quoted and `\\s` is turned back into a space by a text replace that ignores escape boundaries (`\\\\s` is half-matched)',
+ 'C20e': 'per-device loop: a failed keyboard / tablet read is remembered and returned only after the other devices of the same wake-up have been served (a step and a write happen after the failure)',
  'C02e': '`add_new_mapping`: the `should_absorb` guard removed, `release_absorbed_keys` runs on every key-producing activation (a double tap of an absorbing combo forgets the held modifier; its later release is ignored and the output stays down)',
  'C04e': '`add_new_mapping`: the pass-through claim step moved before `release_absorbed_keys` (a trigger modifier handed back by a torn-down absorbing remap stays down). Manifests only with an absorbing mapping - outside the quantifier of C04 (non-absorbing layouts), hence UNDECIDED there; reported through C02 and C05',
  'C05f': '`is_action_key`: table lookup in a list that names `LEFTALT` twice and omits `RIGHTALT` (AltGr treated as a repeatable key)',
